@@ -95,7 +95,7 @@ def _build():
     add(Check("C12", bp_mods + ["py_ast", "py_parser"], explanation="wire format depends only on field numbers and resolved types: alias/enum "
               "transparency and sorted-order contracts (_ast.py, bp.py), every listed rewrite of a base schema proved per program "
               "(Python, C standard, C -O) against its own reference layout, and the lemma that those layouts are bit-identical"))
-    add(Check("C16", ["gen_c", "gen_py"], explanation="JSON: the generated C Json function + the real runtime emit, as a sequence of "
+    add(Check("C16", ["gen_c", "gen_py", "c_bitproto"], explanation="JSON: the generated C Json function + the real runtime emit, as a sequence of "
               "BpJsonFormatString calls, exactly the prescribed JSON value; the generated Python to_dict/to_json give the same value"))
     # NOT in MANIFEST.json: the generic loop-invariant proofs of BpCopyBufferBits (unbounded n).  Every obligation discharges on an
     # idle machine, but verdicts of a few quantified bit-vector queries flip to `unknown` under load, so they are not registered
